@@ -243,16 +243,19 @@ func (t *TimestampType) MetaType() px.ObjectType {
 }
 
 func (t *TimestampType) Parameters() []px.Value {
+	// the bounds as text in UTC: types with the same bounds (Equals compares the instants) have the same parameters,
+	// text and hash key whatever the time zones of the times they were made from
+	text := func(tm time.Time) px.Value { return stringValue(WrapTimestamp(tm.UTC()).String()) }
 	if t.max.Equal(MaxTime) {
 		if t.min.Equal(MinTime) {
 			return px.EmptyValues
 		}
-		return []px.Value{stringValue(WrapTimestamp(t.min).String())}
+		return []px.Value{text(t.min)}
 	}
 	if t.min.Equal(MinTime) {
-		return []px.Value{WrapDefault(), stringValue(WrapTimestamp(t.max).String())}
+		return []px.Value{WrapDefault(), text(t.max)}
 	}
-	return []px.Value{stringValue(WrapTimestamp(t.min).String()), stringValue(WrapTimestamp(t.max).String())}
+	return []px.Value{text(t.min), text(t.max)}
 }
 
 func (t *TimestampType) ReflectType(c px.Context) (reflect.Type, bool) {
